@@ -215,6 +215,18 @@ theorem newQuantity_rows {db : Db} {c : Sym} {f : Option Rat} {u : Sym} {q : Qty
 
 /-! ### the row predicates, as propositions -/
 
+/-- a unit registered under its symbol, whose quantity type is the category's: `Quantity(category,
+unit)` succeeds and keeps both names -/
+theorem newQuantity_of_row {db : Db} {c u : Sym} {f : Option Rat} {ci : CatRow} {r : UnitRow}
+    (hci : db.catByName c = some ci) (hr : db.unitBySym u = some r) (hqt : r.qtype = ci.qtype) :
+    newQuantity db (.str c f) u = .ok ⟨c, u⟩ := by
+  have htry : db.tryInfo ci.qtype u = some r := by simp [Db.tryInfo, hr, hqt]
+  have hget : ∀ a b, db.getInfo ci.qtype u a b = .ok r := by
+    intro a b; simp [Db.getInfo, htry]
+  have hvalid : db.categoryUnitValid c u = true := by
+    simp [Db.categoryUnitValid, hci, Db.checkQuantityTypeUnit, hget]
+  simp [newQuantity, hci, checkedUnit_of_valid hvalid, finishQuantity, hget]
+
 theorem defaultCatOk_spec {db : Db} {r : UnitRow} (h : r.defaultCatOk db = true) :
     ∃ c ci, getDefaultCategory db r.sym = .ok (some c) ∧ c ≠ 0 ∧ db.catByName c = some ci
       ∧ ci.qtype = r.qtype ∧ newQuantity db (.str c none) r.sym = .ok ⟨c, r.sym⟩ := by
@@ -223,10 +235,11 @@ theorem defaultCatOk_spec {db : Db} {r : UnitRow} (h : r.defaultCatOk db = true)
   · cases h
   · rename_i c hc
     simp only [Bool.and_eq_true, bne_iff_ne, ne_eq, beq_iff_eq] at h
-    obtain ⟨⟨⟨h0, hu⟩, hcat⟩, hq⟩ := h
+    obtain ⟨⟨h0, hu⟩, hcat⟩ := h
     split at hcat
     · rename_i ci hci
-      refine ⟨c, ci, ?_, h0, hci, by simpa using hcat, hq⟩
+      have hqt : ci.qtype = r.qtype := by simpa using hcat
+      refine ⟨c, ci, ?_, h0, hci, hqt, newQuantity_of_row hci hu hqt.symm⟩
       simp [getDefaultCategory, defaultCategoryRow, hu, hc]
     · cases hcat
 
@@ -234,7 +247,12 @@ theorem defaultUnitOk_spec {db : Db} {ci : CatRow} (h : ci.defaultUnitOk db = tr
     db.catByName ci.name = some ci
       ∧ newQuantity db (.str ci.name none) ci.defaultUnit = .ok ⟨ci.name, ci.defaultUnit⟩ := by
   unfold CatRow.defaultUnitOk at h
-  simpa using h
+  simp only [Bool.and_eq_true, beq_iff_eq] at h
+  obtain ⟨h1, h2⟩ := h
+  split at h2
+  · rename_i r hr
+    exact ⟨h1, newQuantity_of_row h1 hr (by simpa using h2)⟩
+  · cases h2
 
 /-! ### the constructors, one step at a time -/
 
